@@ -128,10 +128,15 @@ fn draw_mode(rng: &mut Prng) -> Mode {
 
 /// Run the real sampler on a simulator stream; returns (result, bytes consumed, stream landed info)
 fn run_real(case: &SamplerCase) -> (Result<i16, Unwind>, Vec<u8>, u64, usize) {
+    run_real_on(case, None)
+}
+
+/// the same on a simulated thread: every draw is a yield point of `handle`
+fn run_real_on(case: &SamplerCase, handle: Option<std::rc::Rc<crate::sched::Handle>>) -> (Result<i16, Unwind>, Vec<u8>, u64, usize) {
     let shared = Shared::new();
     shared.borrow_mut().begin_op();
-    let _inst = Installed::observer(shared.clone(), None);
-    let mut st = SimStream::new(case.stream_seed, case.mode.clone(), shared.clone(), None, CALL_CAP);
+    let _inst = Installed::observer(shared.clone(), handle.clone());
+    let mut st = SimStream::new(case.stream_seed, case.mode.clone(), shared.clone(), handle, CALL_CAP);
     st.what = "sampler_z exceeded its draw bound";
     st.record = Some(Vec::with_capacity(64));
     let r = guarded(|| hooks::sampler_z(case.mu, case.sigma, case.sigmin, &mut st));
@@ -344,6 +349,42 @@ pub fn one_run(seed: u64, run: u64, calls: usize) -> RunOutcome {
             let e = rng.usize_below(20);
             let base: i128 = if e < 18 { t[e] as i128 } else if e == 18 { 0 } else { (1i128 << 72) - 1 };
             (base + rng.below(3) as i128 - 1).clamp(0, (1i128 << 72) - 1) as u128
+        } else if i % 4 == 1 {
+            // limb mix: an implementation that compares the 72-bit value limb by limb (bytes, 16-, 24-,
+            // 32-bit words as in the reference C code) meets its rare paths when some limbs of u equal
+            // those of a table entry and the others lie above or below; per limb take the entry's limb,
+            // the entry's limb +-1, or the limb of a second value (another entry, 0, all ones, random)
+            st.inc("base_sampler.limb_mix");
+            let w = [8u32, 12, 16, 24, 32, 36][rng.usize_below(6)];
+            let a = t[rng.usize_below(18)];
+            let b: u128 = match rng.below(4) {
+                0 => t[rng.usize_below(18)],
+                1 => 0,
+                2 => (1u128 << 72) - 1,
+                _ => {
+                    let mut v = 0u128;
+                    for _ in 0..9 {
+                        v = (v << 8) | rng.byte() as u128;
+                    }
+                    v
+                }
+            };
+            let mask = (1u128 << w) - 1;
+            let mut v = 0u128;
+            let mut sh = 0u32;
+            while sh < 72 {
+                let la = (a >> sh) & mask;
+                let lb = (b >> sh) & mask;
+                let l = match rng.below(6) {
+                    0 | 1 => la,
+                    2 => la.wrapping_add(1) & mask,
+                    3 => la.wrapping_sub(1) & mask,
+                    _ => lb,
+                };
+                v |= l << sh;
+                sh += w;
+            }
+            v & ((1u128 << 72) - 1)
         } else {
             let mut v = 0u128;
             for _ in 0..9 {
@@ -415,6 +456,171 @@ pub fn one_run(seed: u64, run: u64, calls: usize) -> RunOutcome {
     st.log_hash = logh;
     out.stats = st;
     out
+}
+
+// ---- concurrent callers (deep batch) ------------------------------------------
+//
+// sign calls the sampler from every signer thread at once. A sampler that keeps anything between
+// calls outside its arguments (a memo of 1/sigma, a table filled on first use) must still return,
+// on every thread, what the specification returns for that thread's arguments and bytes. The
+// instrumented build pre-empts at function entries (so between two accesses of such state), with
+// aligned starts: two threads enter the sampler side by side and their first steps are interleaved
+// finely. Each thread keeps to its own sigma' for most calls, so that "my key is in the cache" is
+// the common case and a partner's write in between is what the schedule has to produce.
+
+#[derive(Clone, Debug)]
+pub struct ThreadsPlan {
+    pub sched_seed: u64,
+    pub switch_exp: Option<u32>,
+    pub align: Option<(u32, u32)>,
+    pub threads: Vec<Vec<SamplerCase>>,
+}
+
+fn case_to_plan_json(c: &SamplerCase) -> Value {
+    json!({"mu_bits": format!("{:016x}", c.mu.to_bits()), "sigma_bits": format!("{:016x}", c.sigma.to_bits()), "sigmin_bits": format!("{:016x}", c.sigmin.to_bits()),
+           "mode": c.mode.to_json(), "stream_seed": c.stream_seed})
+}
+
+fn case_from_plan_json(v: &Value) -> Option<SamplerCase> {
+    Some(SamplerCase {
+        mu: f64_from_hex(v.get("mu_bits")?)?,
+        sigma: f64_from_hex(v.get("sigma_bits")?)?,
+        sigmin: f64_from_hex(v.get("sigmin_bits")?)?,
+        mode: Mode::from_json(v.get("mode")?)?,
+        stream_seed: v.get("stream_seed")?.as_u64()?,
+    })
+}
+
+impl ThreadsPlan {
+    pub fn to_json(&self) -> Value {
+        json!({"kind": "sampler_threads", "deep": true, "sched_seed": self.sched_seed, "switch_exp": self.switch_exp,
+               "align": self.align.map(|(y, e)| vec![y, e]),
+               "threads": self.threads.iter().map(|t| t.iter().map(case_to_plan_json).collect::<Vec<_>>()).collect::<Vec<_>>()})
+    }
+    pub fn from_json(v: &Value) -> Option<ThreadsPlan> {
+        Some(ThreadsPlan {
+            sched_seed: v.get("sched_seed")?.as_u64()?,
+            switch_exp: v.get("switch_exp").and_then(|x| x.as_u64()).map(|x| x as u32),
+            align: v.get("align").and_then(|a| a.as_array()).and_then(|a| Some((a.get(0)?.as_u64()? as u32, a.get(1)?.as_u64()? as u32))),
+            threads: v.get("threads")?.as_array()?.iter().map(|t| t.as_array()?.iter().map(case_from_plan_json).collect::<Option<Vec<_>>>()).collect::<Option<Vec<_>>>()?,
+        })
+    }
+    fn draw(rng: &mut Prng) -> ThreadsPlan {
+        let nthreads = 2 + rng.usize_below(3);
+        let mut threads = Vec::new();
+        for _ in 0..nthreads {
+            let (_, own_sigma, own_sigmin) = draw_params(rng);
+            let ncalls = 20 + rng.usize_below(40);
+            let mut cases = Vec::new();
+            for _ in 0..ncalls {
+                let (mu, s, m) = draw_params(rng);
+                let (sigma, sigmin) = if rng.chance(4, 5) { (own_sigma, own_sigmin) } else { (s, m) };
+                cases.push(SamplerCase { mu, sigma, sigmin, mode: if rng.chance(3, 4) { Mode::Uniform } else { draw_mode(rng) }, stream_seed: rng.next_u64() });
+            }
+            threads.push(cases);
+        }
+        ThreadsPlan {
+            sched_seed: rng.next_u64(),
+            switch_exp: Some(*rng.pick(&[3u32, 5, 7])),
+            align: if rng.chance(4, 5) { Some((*rng.pick(&[16u32, 64, 256]), *rng.pick(&[1u32, 2, 3]))) } else { None },
+            threads,
+        }
+    }
+}
+
+/// execute a plan; returns the first disagreement with the reference (class, detail) and scheduler statistics
+fn execute_threads(plan: &ThreadsPlan) -> (Option<(String, String)>, crate::sched::SchedStats, u64) {
+    type Out = Vec<(Result<i16, Unwind>, Vec<u8>)>;
+    let bodies: Vec<Box<dyn FnOnce(std::rc::Rc<crate::sched::Handle>) -> Out + Send>> = plan
+        .threads
+        .iter()
+        .map(|cases| {
+            let cases = cases.clone();
+            Box::new(move |h: std::rc::Rc<crate::sched::Handle>| {
+                let _deep = crate::deep::install(&h);
+                let mut out = Vec::with_capacity(cases.len());
+                for c in cases.iter() {
+                    h.set_phase(40);
+                    h.boundary();
+                    let (r, rec, _, _) = run_real_on(c, Some(h.clone()));
+                    out.push((r, rec));
+                }
+                out
+            }) as Box<dyn FnOnce(std::rc::Rc<crate::sched::Handle>) -> Out + Send>
+        })
+        .collect();
+    let opts = match plan.align {
+        Some((y, e)) => crate::sched::SchedOpts { align: true, dense_yields: y, dense_exp: e },
+        None => crate::sched::SchedOpts::default(),
+    };
+    let (res, sched) = crate::sched::run_threads_opts(plan.sched_seed, plan.switch_exp, 64, opts, bodies);
+    let mut calls = 0u64;
+    if sched.free_running {
+        return (None, sched, 0);
+    }
+    for (t, r) in res.iter().enumerate() {
+        match r {
+            Err(u) => return (Some((format!("simulated thread died: {}", u.signature()), format!("thread {}", t))), sched, calls),
+            Ok(list) => {
+                for (i, (r, rec)) in list.iter().enumerate() {
+                    calls += 1;
+                    let case = &plan.threads[t][i];
+                    if let (Some(c), _, _) = judge_call(case, r, rec) {
+                        return (
+                            Some((format!("{} (concurrent callers)", c), format!("thread {} call {}: mu={} sigma={} sigmin={} result={:?} bytes={}", t, i, case.mu, case.sigma, case.sigmin, r, hex(rec)))),
+                            sched,
+                            calls,
+                        );
+                    }
+                }
+            }
+        }
+    }
+    (None, sched, calls)
+}
+
+fn deep_run(seed: u64, run: u64) -> RunOutcome {
+    let mut rng = Prng::new(report::run_seed(seed, "C09deep", run));
+    let plan = ThreadsPlan::draw(&mut rng);
+    let mut out = RunOutcome::default();
+    let (v, sched, calls) = execute_threads(&plan);
+    out.stats.inc("runs");
+    out.stats.inc("runs.deep_concurrent_callers");
+    out.stats.evaluations += calls;
+    out.stats.steps += sched.steps;
+    out.stats.add("deep.yield_points", sched.steps);
+    out.stats.add("sched.switches", sched.switches);
+    out.stats.add("sched.aligned_starts", sched.aligned_pairs);
+    if sched.free_running {
+        out.stats.inc("inconclusive.schedule_infeasible");
+    }
+    if sched.switches > 0 {
+        out.stats.interleavings.insert(sched.trace_hash);
+    }
+    if let Some((class, detail)) = v {
+        out.violations.push(Violation { property: PROP, class, detail: format!("deep run {}: {}", run, detail), replay: plan.to_json(), run: (1 << 41) + 100 + run });
+    }
+    out
+}
+
+/// entry of the deep binary: `falcon-sim deepruns C09 <tier> <seed> <outfile>`
+pub fn deepruns_main(tier: Tier, seed: u64, outfile: &str) -> i32 {
+    let w = report::workers();
+    let runs = if tier == Tier::Quick { 64u64 } else { 2000 };
+    let mut out = report::parallel_runs(runs, w, |run| deep_run(seed, run));
+    for (run, what) in report::take_dead_runs(&mut out.stats) {
+        out.violations.push(Violation {
+            property: PROP,
+            class: format!("run's process died: {}", what),
+            detail: format!("deep run {}", run),
+            replay: json!({"kind": "rerun"}),
+            run: (1 << 41) + 100 + run,
+        });
+    }
+    match std::fs::write(outfile, out.to_bytes()) {
+        Ok(_) => 0,
+        Err(_) => 2,
+    }
 }
 
 // ---- distribution over uniform streams -------------------------------------
@@ -626,6 +832,10 @@ fn law_batch(_seed: u64, tier: Tier) -> (usize, u64, usize) {
 }
 
 pub fn replay(doc: &Value) -> Option<String> {
+    if doc.get("kind").and_then(|k| k.as_str()) == Some("sampler_threads") {
+        let plan = ThreadsPlan::from_json(doc)?;
+        return execute_threads(&plan).0.map(|c| c.0);
+    }
     match doc.get("kind")?.as_str()? {
         "sampler_z" => {
             let mu = f64_from_hex(doc.get("mu_bits")?)?;
@@ -764,7 +974,18 @@ pub fn check(tier: Tier, seed: u64) -> i32 {
     let out = report::parallel_runs(runs + ncfg as u64 * chunks, w, |run| dispatch(tier, seed, run));
     rep.absorb(out);
     evaluate_law(&mut rep);
-    rep.rule = "a case is one call of sampler_z (through the H4 wrapper) on a simulator-owned byte stream in mode E1 (uniform), E2 (Bernoulli bytes forced to tie with the comparand on 1..7 bytes, then +-1), E6 (1..1000 consecutive forced rejections, then uniform) or E3 (base-sampler bytes at RCDT[i]-1/RCDT[i]/RCDT[i]+1, 0, 2^72-1), judged in lock-step by the reference SamplerZ over the bytes actually consumed; or one call of base_sampler / approx_exp / ber_exp through the wrappers, compared with the reference on integers; or one of the fixed (mu, sigma') law configurations sampled over uniform streams; non-trivial = a faulted stream, a tie of depth >= 2, or a building-block input; distinct = distinct (parameters, consumed bytes)".to_string() + &report::distinct_rule_suffix();
+    // deep batch: concurrent callers under function-entry pre-emption with aligned starts
+    match crate::props::run_deep_batch(PROP, tier, seed) {
+        Ok(Some(o)) => rep.absorb(o),
+        Ok(None) => {
+            rep.stats.notes.insert("NOTE: no instrumented (deep) build available; the concurrent-callers batch was skipped".into());
+        }
+        Err(e) => {
+            eprintln!("HARNESS-ERROR: {}", e);
+            return 2;
+        }
+    }
+    rep.rule = "a case is one call of sampler_z (through the H4 wrapper) on a simulator-owned byte stream in mode E1 (uniform), E2 (Bernoulli bytes forced to tie with the comparand on 1..7 bytes, then +-1), E6 (1..1000 consecutive forced rejections, then uniform) or E3 (base-sampler bytes at RCDT[i]-1/RCDT[i]/RCDT[i]+1, 0, 2^72-1), judged in lock-step by the reference SamplerZ over the bytes actually consumed; or one call of base_sampler / approx_exp / ber_exp through the wrappers, compared with the reference on integers; or one of the fixed (mu, sigma') law configurations sampled over uniform streams; or one call of sampler_z made by one of 2-4 baton-scheduled threads that call the sampler side by side (instrumented build: pre-emption at function entries, aligned starts), judged in lock-step like the first kind; base_sampler inputs include limb mixes (per 8/12/16/24/32/36-bit limb: a table entry's limb, that +-1, or the limb of another value); non-trivial = a faulted stream, a tie of depth >= 2, or a building-block input; distinct = distinct (parameters, consumed bytes)".to_string() + &report::distinct_rule_suffix();
     rep.assumptions = vec![
         "reference RCDT and ApproxExp constants are those of the reference C implementation (PQClean sign.c / fpr.c), the algorithms those of specification Alg. 12-15".into(),
         "float prologue ambiguity (x/ln2 vs x*(1/ln2), last-ulp differences in x) is tolerated: a decision is binding only if it is the same for x and its float neighbours".into(),
@@ -773,7 +994,7 @@ pub fn check(tier: Tier, seed: u64) -> i32 {
     ];
     rep.components = json!({
         "real": ["sampler_z", "base_sampler", "approx_exp", "ber_exp (via read-only hook wrappers H4)"],
-        "stub": ["the RngCore stream (simulator-owned, modes E1/E2/E3)"],
+        "stub": ["the RngCore stream (simulator-owned, modes E1/E2/E3/E6)", "thread scheduler (baton, deep batch)"],
         "model": ["reference SamplerZ / BaseSampler / ApproxExp / BerExp", "ideal D_Z,mu,sigma pmf"],
     });
     rep.finish(report::confirm_in_fresh_process)
